@@ -9,7 +9,7 @@ RULE = ("F: cell = filter-column kind x page version x page size (default | one 
         "2-row-group dataset over 6 row-group contents of 3 rows (nulls included) plus a 2-row content paired in both "
         "orders with two of them (plain, with a null) and with itself, so row groups of unequal size "
         "occur (thorough: every pair over 8 contents of 2, 3 and 4 rows) x filter programs of C05 (flat = AND, nested = OR "
-        "of ANDs) + programs that also condition a second data column (float without nulls, text with nulls) x "
+        "of ANDs) + programs that also condition a second data column (float without nulls, text with nulls) + for the timestamp kind (quick: single-page chunks) every operator against a constant one nanosecond past a stored value x "
         "output columns (all, without the filter column, only the payload, filter column + row id) observed through "
         "to_pandas(filters, row_filter=True), count(filters, row_filter=True), read_row_group_file(rg, columns, "
         "row_filter=filters) for every row group (no pruning there) and the concatenation of "
@@ -40,10 +40,12 @@ def points(tier):
     pts = []
     nc = NCONT[tier]
     deep = tier == "thorough"
-    kinds = ["int64", "str", "float64", "Int64", "cat", "dt"] if deep else ["int64", "str", "float64", "Int64", "cat"]
+    kinds = ["int64", "str", "float64", "Int64", "cat", "dt"]
     for kind in kinds:
         for ver in (1, 2):
             for tiny in (False, True):
+                if kind == "dt" and tiny and not deep:
+                    continue      # quick: the time column on single-page chunks
                 for codec in ((None, "SNAPPY") if deep else (None,)):
                     for first in range(nc):
                         # the direct row-group read and the iterator sit above the page decoder: the quick tier asks
@@ -229,10 +231,18 @@ def extra_programs(kind):
     """programs that condition a second data column as well (num: float, no nulls; pay: text with nulls)"""
     from mc.props import C05
     c = lambda v: C05.kval(kind, v)
-    return [("flat", [("x", ">=", c(2)), ("num", "<", 4.0)]),
-            ("flat", [("x", "!=", c(2)), ("pay", "==", "p1")]),
-            ("nested", [[("pay", "in", ["p1", "p4"])], [("x", ">", c(2)), ("num", "<=", 3.0)]]),
-            ("nested", [[("pay", ">", "p2"), ("x", "<=", c(2))], [("x", "==", c(3))]])]
+    progs = [("flat", [("x", ">=", c(2)), ("num", "<", 4.0)]),
+             ("flat", [("x", "!=", c(2)), ("pay", "==", "p1")]),
+             ("nested", [[("pay", "in", ["p1", "p4"])], [("x", ">", c(2)), ("num", "<=", 3.0)]]),
+             ("nested", [[("pay", ">", "p2"), ("x", "<=", c(2))], [("x", "==", c(3))]])]
+    if kind == "dt":
+        # constants between two ticks of the column's resolution (a nanosecond past a stored value): every
+        # operator must compare with the constant as given
+        import pandas as pd
+        between = c(2) + pd.Timedelta(1, "ns")
+        progs += [("flat", [("x", op, between)]) for op in ("==", "!=", "<", "<=", ">", ">=")]
+        progs.append(("flat", [("x", ">=", between), ("num", "<", 40.0)]))
+    return progs
 
 
 def run_F(p):
